@@ -9,6 +9,7 @@ from ..model import AnalysisError, Cls, Func, Program, walk_own
 from ..report import Report
 from ..resolve import Scope, ann_type, dotted
 from ..util import assigned_value, calls_in, returns_of, src
+from .oneshot import oneshot_rule
 
 LISTS_MOD = "windpyutils.structures.lists"
 SAT = 3  # saturation of the (nodes - size) difference
@@ -91,6 +92,8 @@ def run(prog: Program, rep: Report):
     r3_guards(prog, rep, lf)
     from . import c08_shape
     c08_shape.run(prog, rep, lf)
+    oneshot_rule(prog, rep, "C08.R5", [prog.method(lf.lst, m) for m in ("__init__", "extend", "pre_extend")],
+                 "a second traversal of a generator argument would link nothing while the size was already counted (or vice versa)")
 
 
 # ---------------------------------------------------------------------------------------------- R1
